@@ -25,6 +25,7 @@ import (
 	"verif/harness/ev"
 	"verif/harness/hostile"
 	"verif/harness/inputs"
+	"verif/harness/iofault"
 	"verif/harness/t1gen"
 	"verif/harness/t1ref"
 	"verif/harness/targets"
@@ -85,6 +86,9 @@ func sameOutputs(kind string, first, again map[string][]byte, round int) string 
 
 type fontCase struct {
 	Font *type1.Font `json:"font"`
+	// FailBetween: between the repeated invocations the font is also written
+	// to destinations that fail at various byte offsets
+	FailBetween bool `json:"fail_between,omitempty"`
 }
 
 func checkFont(c *fontCase) string {
@@ -93,6 +97,23 @@ func checkFont(c *fontCase) string {
 		return "" // unwritable value: not this property's business
 	}
 	for r := 1; r < repeats; r++ {
+		if c.FailBetween {
+			// a write that fails part-way (destination refuses a byte of the
+			// encrypted portion or of the trailer) lies between two
+			// invocations: it must leave nothing behind that shows in the next
+			// output
+			form := formats[r%len(formats)]
+			total := len(first[fmt.Sprintf("format%d", form)])
+			at := total * (2*r + 1) / (2 * repeats)
+			if r%3 == 0 {
+				at = total - 1 - r
+			}
+			if at < 0 {
+				at = 0
+			}
+			c.Font.Write(&iofault.FailWriter{AtCall: -1, AtByte: at}, &type1.WriterOptions{Format: form})
+			c.Font.WritePDF(&iofault.FailWriter{AtCall: -1, AtByte: at})
+		}
 		again, err := fontOutputs(c.Font)
 		if err != nil {
 			return "writer fails on a repeated invocation: " + err.Error()
@@ -297,22 +318,58 @@ func genCMapFile(t *rapid.T) []byte {
 		}
 		ms = append(ms, m)
 	}
+	// some of the CMaps build on another CMap of the same file (or on one
+	// from elsewhere): whichever is returned, it must be the same every time
+	if rapid.Bool().Draw(t, "usecmaps") {
+		for i, m := range ms {
+			switch rapid.IntRange(0, 3).Draw(t, "usecmap") {
+			case 0:
+				m.UseCMap = ms[(i+1+rapid.IntRange(0, n-2).Draw(t, "usewhich"))%n].Name
+			case 1:
+				m.UseCMap = "Elsewhere-H"
+			}
+		}
+	}
 	return cmapref.Write(ms, nil)
+}
+
+// hugeGlyphFont has n glyphs of the given number of segments with
+// coordinates that need five-byte numbers (about 10 bytes per segment).
+func hugeGlyphFont(n, segments int) *type1.Font {
+	f := &type1.Font{
+		FontInfo: &type1.FontInfo{FontName: "Huge", FontMatrix: [6]float64{0.001, 0, 0, 0.001, 0, 0}},
+		Private:  &type1.PrivateDict{BlueScale: 0.039625, BlueShift: 7, BlueFuzz: 1},
+		Glyphs:   map[string]*type1.Glyph{},
+	}
+	f.NewGlyph(".notdef", 250)
+	for gi := 0; gi < n; gi++ {
+		g := f.NewGlyph(fmt.Sprintf("huge%d", gi), 500)
+		g.MoveTo(0, 0)
+		for k := 0; k < segments; k++ {
+			s := float64(1 - 2*(k%2))
+			g.LineTo(s*float64(20000+k+gi), -s*float64(30000+2*k))
+		}
+		g.ClosePath()
+	}
+	return f
 }
 
 func TestP1Repeat(t *testing.T) {
 	rec := ev.New("C17", "repeat")
 	defer rec.Finish(t)
-	rec.Rule(fmt.Sprintf("values built to expose iteration order - fonts with up to 60 glyphs from the C09 generator plus glyphs whose names differ from another's in letter case only, metrics with 2-40 glyphs (names differing in case or leading zeros only) and 0-6 ligatures per glyph plus kerning, CMap files with 2-5 CMaps whose names are adjacent or equal and blocks with duplicate source codes (ties in the sort). History: each writer (4 Type 1 formats, WritePDF with its two lengths, Metrics.Write, both GlyphList methods) is invoked %d times on the same value and every output must be byte-identical to the first; each reader (type1.Read on all four formats, afm.Read, ReadCMap - half of the CMap cases with other inputs read in between: CMap files that define straight into the procedure set, redefine its operators or stop half-way, and programs that store into shared-looking objects) is invoked repeatedly on the same bytes and must give deep-equal results (for CMaps: same CMap chosen, same tables in the same order). Non-trivial: the value has >= 1 map with >= 2 entries on an output path (>= 2 glyphs, >= 2 ligatures on a glyph, >= 2 CMaps); distinct by value. Go randomises map iteration per range statement: %d repeats of a two-entry map miss an order dependence with probability 2^-%d.", repeats, repeats, repeats-1))
+	rec.Rule(fmt.Sprintf("values built to expose iteration order - fonts with up to 60 glyphs from the C09 generator plus glyphs whose names differ from another's in letter case only, metrics with 2-40 glyphs (names differing in case or leading zeros only) and 0-6 ligatures per glyph plus kerning, CMap files with 2-5 CMaps whose names are adjacent or equal, half of them with usecmap references to each other or to an outside CMap, and blocks with duplicate source codes (ties in the sort). History: each writer (4 Type 1 formats - for half of the fonts with writes to failing destinations, at byte offsets spread over the output, in between -, WritePDF with its two lengths, Metrics.Write, both GlyphList methods) is invoked %d times on the same value and every output must be byte-identical to the first; each reader (type1.Read on all four formats, afm.Read, ReadCMap - half of the CMap cases with other inputs read in between: CMap files that define straight into the procedure set, redefine its operators or stop half-way, and programs that store into shared-looking objects) is invoked repeatedly on the same bytes and must give deep-equal results (for CMaps: same CMap chosen, same tables in the same order). Non-trivial: the value has >= 1 map with >= 2 entries on an output path (>= 2 glyphs, >= 2 ligatures on a glyph, >= 2 CMaps); distinct by value. Go randomises map iteration per range statement: %d repeats of a two-entry map miss an order dependence with probability 2^-%d.", repeats, repeats, repeats-1))
 	ev.SetupRapid(3000, 96000)
 	rapid.Check(t, func(t *rapid.T) {
 		switch rapid.IntRange(0, 2).Draw(t, "kind") {
 		case 0:
 			f, _ := t1gen.GenFont(t, t1gen.FontOpts{NoOperatorNames: true, MaxGlyphs: 60})
 			addCaseTwins(t, f)
-			c := &fontCase{Font: f}
+			c := &fontCase{Font: f, FailBetween: rapid.Bool().Draw(t, "failbetween")}
 			rec.Eval(1)
 			rec.Class("font")
+			if c.FailBetween {
+				rec.Class("font-with-failed-writes-between")
+			}
 			if len(f.Glyphs) >= 2 {
 				raw, _ := json.Marshal(f)
 				rec.NonTrivialHash(ev.Hash(string(raw)))
@@ -359,6 +416,19 @@ func TestP1Repeat(t *testing.T) {
 			}
 		}
 	})
+	// fonts with several very long charstrings (each beyond 65535 bytes, the
+	// largest string a Type 1 interpreter has to accept: a writer that treats
+	// such glyphs specially must still do so in a fixed order), one per run
+	if shard, _ := ev.Shard(); shard == 0 {
+		f := hugeGlyphFont(3, 7000)
+		c := &fontCase{Font: f}
+		rec.Eval(1)
+		rec.Class("font-with-huge-charstrings")
+		rec.NonTrivial("huge charstrings")
+		if msg := ev.Safe(func() string { return checkFont(c) }); msg != "" {
+			rec.Violation(false, msg, map[string]any{"huge_glyphs": 3, "segments": 7000})
+		}
+	}
 }
 
 // ---------------------------------------------------------------------------
@@ -586,11 +656,13 @@ func TestReplay(t *testing.T) {
 		t.Skip("no VERIF_REPLAY")
 	}
 	var c struct {
-		Font    *fontCase    `json:"font"`
-		Metrics *metricsCase `json:"metrics"`
-		CMap    *cmapCase    `json:"cmap"`
-		Proc    *procCase    `json:"proc"`
-		Reread  *rereadCase  `json:"reread"`
+		HugeGlyphs int          `json:"huge_glyphs"`
+		Segments   int          `json:"segments"`
+		Font       *fontCase    `json:"font"`
+		Metrics    *metricsCase `json:"metrics"`
+		CMap       *cmapCase    `json:"cmap"`
+		Proc       *procCase    `json:"proc"`
+		Reread     *rereadCase  `json:"reread"`
 	}
 	if err := json.Unmarshal(rc.Case, &c); err != nil {
 		t.Fatal(err)
@@ -599,6 +671,8 @@ func TestReplay(t *testing.T) {
 	for i := 0; i < 20; i++ {
 		msg := ev.Safe(func() string {
 			switch {
+			case c.HugeGlyphs > 0:
+				return checkFont(&fontCase{Font: hugeGlyphFont(c.HugeGlyphs, c.Segments)})
 			case c.Font != nil:
 				return checkFont(c.Font)
 			case c.Metrics != nil:
